@@ -1,21 +1,1995 @@
-//! C19 — not built yet (stub).
+//! C19 — Peer message framing is faithful under fragmentation and enforces size limits.
+//!
+//! Parts:
+//!  * `frag`      — a sequence of wire messages written into a loopback socket in fragments
+//!                  is read by `Codec::read` as the identical sequence (case = `WireCase`).
+//!  * `limits`    — frames with a wrong magic / over-limit announced length / inconsistent
+//!                  header-list counts are refused without consuming the announced body
+//!                  (case = `LimitCase`); `limits-alloc` = the same frame in a single-threaded
+//!                  child process under the counting allocator.
+//!  * `handshake` — version negotiation, genesis mismatch, self connection (case = `HsCase`).
 
 use crate::engine::*;
-use serde_json::Value;
+use crate::refmmr::blake;
+use crate::world::{assemble, init_global, init_thread, scalar_from, sign_kernel, KKind, KernelSpec, OutRef, TxSpec, LIB};
+use crate::{ensure, fail};
+use chrono::Utc;
+use grin_chain::txhashset::{BitmapChunk, BitmapSegment};
+use grin_core::core::hash::{Hash, Hashed};
+use grin_core::core::id::{ShortId, ShortIdentifiable};
+use grin_core::core::pmmr::{ReadablePMMR, ReadonlyPMMR, VecBackend, PMMR};
+use grin_core::core::{
+	Block, BlockHeader, CompactBlock, FeeFields, KernelFeatures, Output, OutputIdentifier, Segment, SegmentIdentifier, Transaction,
+	TxKernel,
+};
+use grin_core::global::{self, ChainTypes};
+use grin_core::pow::Difficulty;
+use grin_core::ser::{self, DeserializationMode, PMMRable, ProtocolVersion, Writeable, Writer};
+use grin_p2p::handshake::Handshake;
+use grin_p2p::msg::{
+	BanReason, GetPeerAddrs, Hand, Locator, Message, Msg, MsgHeader, OutputBitmapSegmentResponse, OutputSegmentResponse, PeerAddrs,
+	Ping, Pong, SegmentRequest, SegmentResponse, Shake, TxHashSetArchive, TxHashSetRequest, Type,
+};
+use grin_p2p::types::AttachmentMeta;
+use grin_p2p::verif_export::{Codec, Tracker};
+use grin_p2p::{Capabilities, P2PConfig, PeerAddr, ReasonForBan};
+use grin_util::secp::pedersen::RangeProof;
+use grin_util::ToHex;
+use proptest::prelude::*;
+use serde_derive::{Deserialize, Serialize};
+use serde_json::{json, Value};
+use std::io::{Read, Write};
+use std::net::{Ipv4Addr, Ipv6Addr, Shutdown, SocketAddr, SocketAddrV4, SocketAddrV6, TcpListener, TcpStream};
+use std::sync::atomic::{AtomicBool, AtomicUsize, Ordering};
+use std::sync::{mpsc, Arc, Mutex, OnceLock};
+use std::time::Duration;
 
-pub fn run(_ctx: &Ctx) -> HResult<()> {
-	Err(HarnessError("C19 check not built yet".into()))
+const HDR: usize = 11;
+const VERSIONS: [u32; 4] = [1, 2, 3, 1000];
+const OTHER_MAGIC: [u8; 2] = [73, 43];
+const MAINNET_MAGIC: [u8; 2] = [97, 61];
+/// generous watchdog (never an assertion by itself: see `with_stall_retry`)
+const WATCHDOG: Duration = Duration::from_secs(20);
+/// inter-fragment delays (µs) a plan can pick from; far inside the 2 s / 60 s timeouts
+const DELAYS_US: [u32; 6] = [0, 0, 50, 200, 1000, 5000];
+/// total sleeping per connection is capped (fixed work, not a time quota)
+const DELAY_BUDGET_US: u64 = 30_000;
+
+const TYPES: [Type; 29] = [
+	Type::Error,
+	Type::Hand,
+	Type::Shake,
+	Type::Ping,
+	Type::Pong,
+	Type::GetPeerAddrs,
+	Type::PeerAddrs,
+	Type::GetHeaders,
+	Type::Header,
+	Type::Headers,
+	Type::GetBlock,
+	Type::Block,
+	Type::GetCompactBlock,
+	Type::CompactBlock,
+	Type::StemTransaction,
+	Type::Transaction,
+	Type::TxHashSetRequest,
+	Type::TxHashSetArchive,
+	Type::BanReason,
+	Type::GetTransaction,
+	Type::TransactionKernel,
+	Type::GetOutputBitmapSegment,
+	Type::OutputBitmapSegment,
+	Type::GetOutputSegment,
+	Type::OutputSegment,
+	Type::GetRangeProofSegment,
+	Type::RangeProofSegment,
+	Type::GetKernelSegment,
+	Type::KernelSegment,
+];
+
+fn known(t: u8) -> Option<Type> {
+	TYPES.get(t as usize).copied().filter(|x| *x as u8 == t)
 }
 
-pub fn replay(_ctx: &Ctx, _part: &str, _case: &Value) -> PResult {
+fn tname(t: u8) -> String {
+	match known(t) {
+		Some(x) => format!("{:?}", x),
+		None => "Unknown".to_string(),
+	}
+}
+
+/// `max_msg_size` of p2p/src/msg.rs (private there): nominal per-type maximum under the
+/// calling thread's chain type. `MsgHeaderWrapper::read` refuses `msg_len > 4 * nominal`
+/// ("TODO 4x the limits for now to leave ourselves space to change things").
+fn nominal_max(t: u8) -> u64 {
+	let max_block = (global::max_block_weight() / grin_core::consensus::OUTPUT_WEIGHT * 708) as u64;
+	let Some(ty) = known(t) else { return max_block };
+	match ty {
+		Type::Error => 0,
+		Type::Hand => 128,
+		Type::Shake => 88,
+		Type::Ping => 16,
+		Type::Pong => 16,
+		Type::GetPeerAddrs => 4,
+		Type::PeerAddrs => 4 + (1 + 16 + 2) * grin_p2p::MAX_PEER_ADDRS as u64,
+		Type::GetHeaders => 1 + 32 * grin_p2p::MAX_LOCATORS as u64,
+		Type::Header => 365,
+		Type::Headers => 2 + 365 * grin_p2p::MAX_BLOCK_HEADERS as u64,
+		Type::GetBlock => 32,
+		Type::Block => max_block,
+		Type::GetCompactBlock => 32,
+		Type::CompactBlock => max_block / 10,
+		Type::StemTransaction => max_block,
+		Type::Transaction => max_block,
+		Type::TxHashSetRequest => 40,
+		Type::TxHashSetArchive => 64,
+		Type::BanReason => 64,
+		Type::GetTransaction => 32,
+		Type::TransactionKernel => 32,
+		Type::GetOutputBitmapSegment => 41,
+		Type::OutputBitmapSegment => 2 * max_block,
+		Type::GetOutputSegment => 41,
+		Type::OutputSegment => 2 * max_block,
+		Type::GetRangeProofSegment => 41,
+		Type::RangeProofSegment => 2 * max_block,
+		Type::GetKernelSegment => 41,
+		Type::KernelSegment => 2 * max_block,
+	}
+}
+
+fn hexs(b: &[u8]) -> String {
+	b.to_vec().to_hex()
+}
+
+fn unhex(s: &str) -> Result<Vec<u8>, Fail> {
+	if s.is_empty() {
+		return Ok(vec![]);
+	}
+	grin_util::from_hex(s).map_err(|e| Fail::new("harness:replay-parse", format!("hex: {:?}", e)))
+}
+
+/// deterministic pseudo-random bytes from a seed
+fn expand(seed: u64, tag: u8, n: usize) -> Vec<u8> {
+	let mut out = Vec::with_capacity(n + 32);
+	let mut ctr = 0u32;
+	while out.len() < n {
+		out.extend_from_slice(&blake(&[b"c19", &seed.to_be_bytes(), &[tag], &ctr.to_be_bytes()]));
+		ctr += 1;
+	}
+	out.truncate(n);
+	out
+}
+
+fn hash_from(seed: u64, tag: u8) -> Hash {
+	Hash::from_vec(&expand(seed, tag, 32))
+}
+
+fn enc<T: Writeable>(x: &T, v: u32) -> Result<Vec<u8>, ser::Error> {
+	ser::ser_vec(x, ProtocolVersion(v))
+}
+
+/// the documented frame header: 2 magic bytes, type byte, body length (u64 big endian)
+fn frame_header(magic: [u8; 2], t: u8, len: u64) -> Vec<u8> {
+	let mut h = vec![magic[0], magic[1], t];
+	h.extend_from_slice(&len.to_be_bytes());
+	h
+}
+
+fn harness<E: std::fmt::Debug>(what: &str) -> impl Fn(E) -> Fail + '_ {
+	move |e| Fail::new("harness:io", format!("{}: {:?}", what, e))
+}
+
+// ------------------------------------------------------------------ pool of real objects
+
+pub struct Pool {
+	headers: Vec<BlockHeader>,
+	blocks: Vec<Block>,
+	compacts: Vec<CompactBlock>,
+	txs: Vec<Transaction>,
+	kernels: Vec<TxKernel>,
+	outids: Vec<OutputIdentifier>,
+	proofs: Vec<RangeProof>,
+}
+
+static POOL: OnceLock<Result<Pool, String>> = OnceLock::new();
+
+fn universe() -> (Vec<OutRef>, Vec<OutRef>) {
+	let plain = [0u32, 1, 2, 3, 4, 7, 8, 9, 10, 11, 14, 15, 16, 17, 18, 21].iter().map(|k| OutRef { amount: 1, key: *k, cb: false }).collect();
+	let cb = [4u32, 5, 6, 8, 9, 10, 12, 13].iter().map(|k| OutRef { amount: grin_core::consensus::REWARD, key: *k, cb: true }).collect();
+	(plain, cb)
+}
+
+/// deterministic compact block: the documented layout (header, nonce, three counts,
+/// sorted coinbase outputs / coinbase kernels / short ids of the other kernels), decoded
+/// by the plain `CompactBlock` reader (`CompactBlock::from(Block)` draws a random nonce)
+fn compact_of(b: &Block, nonce: u64) -> Result<CompactBlock, String> {
+	let hh = b.header.hash();
+	let mut outs: Vec<Output> = b.outputs().iter().filter(|o| o.is_coinbase()).cloned().collect();
+	let mut kf: Vec<TxKernel> = b.kernels().iter().filter(|k| k.is_coinbase()).cloned().collect();
+	let mut ids: Vec<ShortId> = b.kernels().iter().filter(|k| !k.is_coinbase()).map(|k| k.short_id(&hh, nonce)).collect();
+	outs.sort();
+	kf.sort();
+	ids.sort();
+	ids.dedup();
+	let e = |x: Result<Vec<u8>, ser::Error>| x.map_err(|e| format!("compact layout: {:?}", e));
+	let mut bytes = e(enc(&b.header, 1))?;
+	bytes.extend_from_slice(&nonce.to_be_bytes());
+	for n in [outs.len(), kf.len(), ids.len()] {
+		bytes.extend_from_slice(&(n as u64).to_be_bytes());
+	}
+	for o in &outs {
+		bytes.extend_from_slice(&e(enc(o, 1))?);
+	}
+	for k in &kf {
+		bytes.extend_from_slice(&e(enc(k, 1))?);
+	}
+	for i in &ids {
+		bytes.extend_from_slice(i.as_ref());
+	}
+	let mut s: &[u8] = &bytes;
+	let cb: CompactBlock = ser::deserialize(&mut s, ProtocolVersion(1), DeserializationMode::default()).map_err(|e| format!("compact layout refused: {:?}", e))?;
+	if !s.is_empty() || cb.header != b.header || cb.nonce != nonce {
+		return Err("compact layout: decoded value differs".into());
+	}
+	Ok(cb)
+}
+
+fn build_pool(ctx: &Ctx) -> Result<Pool, String> {
+	init_thread();
+	let base = crate::props::c02::base(ctx)?;
+	let blocks: Vec<Block> = base.world.nodes.iter().skip(1).map(|n| n.block.clone()).collect();
+	if blocks.len() < 80 {
+		return Err(format!("base chain has only {} blocks", blocks.len()));
+	}
+	let headers: Vec<BlockHeader> = blocks.iter().map(|b| b.header.clone()).collect();
+	let mut compacts = vec![];
+	for b in &blocks {
+		compacts.push(compact_of(b, 0x5eed_0000 + b.header.height)?);
+	}
+	let (plain, cb) = universe();
+	let reward = grin_core::consensus::REWARD;
+	let k = |kind: KKind, fee: u64, lock: u64| KernelSpec { kind, fee, shift: 0, lock, excess_tag: 0 };
+	let specs = vec![
+		TxSpec { inputs: vec![cb[0]], outputs: vec![plain[0]], kernels: vec![k(KKind::Plain, reward - 1, 0)], zero_offset: false },
+		TxSpec { inputs: vec![cb[1]], outputs: vec![plain[1], plain[2]], kernels: vec![k(KKind::Plain, reward - 2, 0)], zero_offset: true },
+		TxSpec { inputs: vec![cb[2], cb[3]], outputs: vec![plain[3]], kernels: vec![k(KKind::Plain, 2 * reward - 1, 0)], zero_offset: false },
+		TxSpec {
+			inputs: vec![cb[4]],
+			outputs: vec![plain[4], plain[5]],
+			kernels: vec![k(KKind::Plain, 7, 0), k(KKind::HeightLocked, reward - 9, 12345)],
+			zero_offset: false,
+		},
+		TxSpec { inputs: vec![cb[5]], outputs: vec![plain[6]], kernels: vec![k(KKind::Nrd, reward - 1, 60)], zero_offset: false },
+		TxSpec { inputs: vec![plain[7], plain[8], plain[9]], outputs: vec![plain[10]], kernels: vec![k(KKind::Plain, 2, 0)], zero_offset: true },
+	];
+	let mut txs = vec![];
+	for s in &specs {
+		if !s.balanced() {
+			return Err(format!("pool tx spec does not balance: {:?}", s));
+		}
+		txs.push(assemble(s).0);
+	}
+	let mut kernels = vec![];
+	for i in 0..40u64 {
+		let fee = FeeFields::new(0, 1 + i * 1000).map_err(|e| format!("{:?}", e))?;
+		let f = match i % 3 {
+			0 => KernelFeatures::Plain { fee },
+			1 => KernelFeatures::HeightLocked { fee, lock_height: i * 77 },
+			_ => KernelFeatures::Coinbase,
+		};
+		kernels.push(sign_kernel(f, &scalar_from(format!("c19-kernel-{}", i).as_bytes())));
+	}
+	let mut outids = vec![];
+	let mut proofs = vec![];
+	for o in plain.iter().chain(cb.iter()) {
+		let out = LIB.output(o);
+		outids.push(out.identifier());
+		proofs.push(out.proof);
+	}
+	Ok(Pool { headers, blocks, compacts, txs, kernels, outids, proofs })
+}
+
+pub fn pool(ctx: &Ctx) -> Result<&'static Pool, String> {
+	POOL.get_or_init(|| build_pool(ctx)).as_ref().map_err(|e| e.clone())
+}
+
+/// segment cut from a small in-memory PMMR by the repository's own producer
+fn seg_from<T: PMMRable>(items: &[T], leaves: usize, h: u8, idx_sel: u8) -> Result<Segment<T::E>, String> {
+	let mut backend: VecBackend<T> = VecBackend::new();
+	let n = leaves.max(1);
+	let size = {
+		let mut p = PMMR::<T, _>::new(&mut backend);
+		for i in 0..n {
+			p.push(&items[i % items.len()]).map_err(|e| format!("push: {}", e))?;
+		}
+		p.unpruned_size()
+	};
+	let count = SegmentIdentifier::count_segments_required(size, h).max(1) as u64;
+	let id = SegmentIdentifier { height: h, idx: idx_sel as u64 % count };
+	let ro = ReadonlyPMMR::<T, _>::at(&backend, size);
+	Segment::from_pmmr(id, &ro, false).map_err(|e| format!("from_pmmr: {:?}", e))
+}
+
+fn bitmap_chunks(seed: u64, n: usize) -> Vec<BitmapChunk> {
+	(0..n)
+		.map(|i| {
+			let mut c = BitmapChunk::new();
+			let raw = expand(seed, 40 + i as u8, 128);
+			match (seed >> (2 * (i % 16))) & 3 {
+				0 => {}
+				1 => {
+					for j in 0..(raw[0] as u64 % 20) {
+						c.set((raw[1 + j as usize] as u64 * 4 + j) % 1024, true);
+					}
+				}
+				2 => {
+					for p in 0..1024u64 {
+						c.set(p, true);
+					}
+				}
+				_ => {
+					for p in 0..1024usize {
+						if raw[p / 8] >> (p % 8) & 1 == 1 {
+							c.set(p as u64, true);
+						}
+					}
+				}
+			}
+			c
+		})
+		.collect()
+}
+
+// ------------------------------------------------------------------ message specs (what proptest generates)
+
+#[derive(Clone, Debug)]
+pub struct AddrSpec {
+	v6: bool,
+	ip: [u16; 8],
+	port: u16,
+}
+
+impl AddrSpec {
+	fn addr(&self) -> PeerAddr {
+		if self.v6 {
+			let mut s = self.ip;
+			// PeerAddr::read turns the IPv4-mapped form into an IPv4 address (documented): not generated
+			if Ipv6Addr::new(s[0], s[1], s[2], s[3], s[4], s[5], s[6], s[7]).to_ipv4_mapped().is_some() {
+				s[0] = 0x2001;
+			}
+			PeerAddr(SocketAddr::V6(SocketAddrV6::new(Ipv6Addr::new(s[0], s[1], s[2], s[3], s[4], s[5], s[6], s[7]), self.port, 0, 0)))
+		} else {
+			let b = [self.ip[0].to_be_bytes(), self.ip[1].to_be_bytes()];
+			PeerAddr(SocketAddr::V4(SocketAddrV4::new(Ipv4Addr::new(b[0][0], b[0][1], b[1][0], b[1][1]), self.port)))
+		}
+	}
+}
+
+fn addrspec() -> impl Strategy<Value = AddrSpec> {
+	(any::<bool>(), prop::array::uniform8(any::<u16>()), any::<u16>()).prop_map(|(v6, ip, port)| AddrSpec { v6, ip, port })
+}
+
+#[derive(Clone, Debug)]
+pub enum MsgSpec {
+	Ping(u64, u64),
+	Pong(u64, u64),
+	GetPeerAddrs(u8),
+	PeerAddrs(Vec<AddrSpec>),
+	GetHeaders(u64, u8),
+	Header(u16),
+	/// contiguous run of real headers: start selector, count (never 0: see the zero-headers probe)
+	Headers(u16, u16),
+	GetBlock(u64),
+	Block(u16),
+	GetCompactBlock(u64),
+	CompactBlock(u16),
+	StemTx(u16),
+	Tx(u16),
+	TxHashSetRequest(u64, u64),
+	/// hash seed, height, attachment length, attachment seed
+	TxHashSetArchive(u64, u64, u32, u64),
+	BanReason(u8),
+	GetTransaction(u64),
+	TransactionKernel(u64),
+	/// which request type (0..4), hash seed, segment height, segment index
+	SegRequest(u8, u64, u8, u64),
+	/// (seed, leaves, segment height, segment selector)
+	KernelSeg(u64, u8, u8, u8),
+	RangeProofSeg(u64, u8, u8, u8),
+	OutputSeg(u64, u8, u8, u8),
+	BitmapSeg(u64, u8, u8, u8),
+	/// type byte outside `Type`, body length, body seed
+	Unknown(u8, u16, u64),
+}
+
+fn u64_edges() -> impl Strategy<Value = u64> {
+	prop_oneof![4 => any::<u64>(), 1 => Just(0u64), 1 => Just(u64::MAX), 1 => 0u64..1000]
+}
+
+fn att_len() -> impl Strategy<Value = u32> {
+	prop_oneof![
+		2 => Just(0u32),
+		2 => 1u32..200,
+		3 => 200u32..20_000,
+		1 => Just(47_999u32),
+		1 => Just(48_000u32),
+		1 => Just(48_001u32),
+		1 => Just(96_000u32),
+		2 => 20_000u32..=200_000,
+		1 => Just(200_000u32),
+	]
+}
+
+fn headers_n() -> impl Strategy<Value = u16> {
+	prop_oneof![3 => Just(1u16), 2 => Just(31u16), 3 => Just(32u16), 3 => Just(33u16), 3 => Just(64u16), 1 => Just(65u16), 1 => Just(89u16), 3 => 2u16..=89]
+}
+
+const REASONS: [ReasonForBan; 8] = [
+	ReasonForBan::None,
+	ReasonForBan::BadBlock,
+	ReasonForBan::BadCompactBlock,
+	ReasonForBan::BadBlockHeader,
+	ReasonForBan::BadTxHashSet,
+	ReasonForBan::ManualBan,
+	ReasonForBan::FraudHeight,
+	ReasonForBan::BadHandshake,
+];
+
+fn small_msg() -> impl Strategy<Value = MsgSpec> {
+	prop_oneof![
+		3 => (u64_edges(), u64_edges()).prop_map(|(a, b)| MsgSpec::Ping(a, b)),
+		3 => (u64_edges(), u64_edges()).prop_map(|(a, b)| MsgSpec::Pong(a, b)),
+		2 => (0u8..128).prop_map(MsgSpec::GetPeerAddrs),
+		2 => prop::collection::vec(addrspec(), 0..=3).prop_map(MsgSpec::PeerAddrs),
+		2 => (any::<u64>(), 0u8..=3).prop_map(|(a, b)| MsgSpec::GetHeaders(a, b)),
+		2 => any::<u64>().prop_map(MsgSpec::GetBlock),
+		2 => any::<u64>().prop_map(MsgSpec::GetCompactBlock),
+		2 => (any::<u64>(), u64_edges()).prop_map(|(a, b)| MsgSpec::TxHashSetRequest(a, b)),
+		2 => (any::<u64>(), u64_edges(), 0u32..64, any::<u64>()).prop_map(|(a, b, c, d)| MsgSpec::TxHashSetArchive(a, b, c, d)),
+		2 => (0u8..8).prop_map(MsgSpec::BanReason),
+		2 => any::<u64>().prop_map(MsgSpec::GetTransaction),
+		2 => any::<u64>().prop_map(MsgSpec::TransactionKernel),
+		3 => (0u8..4, any::<u64>(), any::<u8>(), u64_edges()).prop_map(|(a, b, c, d)| MsgSpec::SegRequest(a, b, c, d)),
+		4 => (29u8..=255, 0u16..40, any::<u64>()).prop_map(|(a, b, c)| MsgSpec::Unknown(a, b, c)),
+	]
+}
+
+fn any_msg() -> impl Strategy<Value = MsgSpec> {
+	prop_oneof![
+		12 => small_msg(),
+		2 => prop::collection::vec(addrspec(), 0..=256).prop_map(MsgSpec::PeerAddrs),
+		2 => (any::<u64>(), 0u8..=20).prop_map(|(a, b)| MsgSpec::GetHeaders(a, b)),
+		3 => any::<u16>().prop_map(MsgSpec::Header),
+		6 => (any::<u16>(), headers_n()).prop_map(|(a, b)| MsgSpec::Headers(a, b)),
+		3 => any::<u16>().prop_map(MsgSpec::Block),
+		3 => any::<u16>().prop_map(MsgSpec::CompactBlock),
+		2 => any::<u16>().prop_map(MsgSpec::StemTx),
+		2 => any::<u16>().prop_map(MsgSpec::Tx),
+		5 => (any::<u64>(), u64_edges(), att_len(), any::<u64>()).prop_map(|(a, b, c, d)| MsgSpec::TxHashSetArchive(a, b, c, d)),
+		2 => (any::<u64>(), 1u8..=40, 0u8..4, any::<u8>()).prop_map(|(a, b, c, d)| MsgSpec::KernelSeg(a, b, c, d)),
+		2 => (any::<u64>(), 1u8..=12, 0u8..4, any::<u8>()).prop_map(|(a, b, c, d)| MsgSpec::RangeProofSeg(a, b, c, d)),
+		2 => (any::<u64>(), 1u8..=40, 0u8..4, any::<u8>()).prop_map(|(a, b, c, d)| MsgSpec::OutputSeg(a, b, c, d)),
+		2 => (any::<u64>(), 1u8..=8, 0u8..4, any::<u8>()).prop_map(|(a, b, c, d)| MsgSpec::BitmapSeg(a, b, c, d)),
+		3 => (29u8..=255, 0u16..2000, any::<u64>()).prop_map(|(a, b, c)| MsgSpec::Unknown(a, b, c)),
+	]
+}
+
+/// monotone index into a collection (so that shrinking works)
+fn pick(i: u16, len: usize) -> usize {
+	(i as usize * len) >> 16
+}
+
+/// One message as it goes on the wire. `att` = (length, seed) of the attachment that
+/// follows a TxHashSetArchive (bytes = expand(seed, 9, length)).
+#[derive(Clone, Debug, Serialize, Deserialize, PartialEq)]
+pub struct WireMsg {
+	pub t: u8,
+	pub body: String,
+	#[serde(default)]
+	pub att: Option<(u32, u64)>,
+}
+
+fn wire<T: Writeable>(t: Type, x: &T, v: u32) -> Result<WireMsg, String> {
+	enc(x, v).map(|b| WireMsg { t: t as u8, body: hexs(&b), att: None }).map_err(|e| format!("{:?}", e))
+}
+
+/// typed value -> wire message at version v. Err(reason) = this value cannot be written at
+/// this version (the writer refuses it, e.g. commit-only inputs below version 3).
+fn build_msg(spec: &MsgSpec, v: u32, p: &Pool) -> Result<WireMsg, String> {
+	let d = Difficulty::from_num;
+	match spec {
+		MsgSpec::Ping(a, b) => wire(Type::Ping, &Ping { total_difficulty: d(*a), height: *b }, v),
+		MsgSpec::Pong(a, b) => wire(Type::Pong, &Pong { total_difficulty: d(*a), height: *b }, v),
+		MsgSpec::GetPeerAddrs(c) => wire(Type::GetPeerAddrs, &GetPeerAddrs { capabilities: Capabilities::from_bits_truncate(*c as u32 & 0x7f) }, v),
+		MsgSpec::PeerAddrs(a) => wire(Type::PeerAddrs, &PeerAddrs { peers: a.iter().map(|a| a.addr()).collect() }, v),
+		MsgSpec::GetHeaders(seed, n) => wire(Type::GetHeaders, &Locator { hashes: (0..*n).map(|i| hash_from(*seed, i)).collect() }, v),
+		MsgSpec::Header(i) => wire(Type::Header, &p.headers[pick(*i, p.headers.len())], v),
+		MsgSpec::Headers(start, n) => {
+			let n = (*n as usize).clamp(1, p.headers.len());
+			let s = pick(*start, p.headers.len() - n + 1);
+			wire(Type::Headers, &grin_p2p::msg::Headers { headers: p.headers[s..s + n].to_vec() }, v)
+		}
+		MsgSpec::GetBlock(s) => wire(Type::GetBlock, &hash_from(*s, 1), v),
+		MsgSpec::Block(i) => wire(Type::Block, &p.blocks[pick(*i, p.blocks.len())], v),
+		MsgSpec::GetCompactBlock(s) => wire(Type::GetCompactBlock, &hash_from(*s, 1), v),
+		MsgSpec::CompactBlock(i) => wire(Type::CompactBlock, &p.compacts[pick(*i, p.compacts.len())], v),
+		MsgSpec::StemTx(i) => wire(Type::StemTransaction, &p.txs[pick(*i, p.txs.len())], v),
+		MsgSpec::Tx(i) => wire(Type::Transaction, &p.txs[pick(*i, p.txs.len())], v),
+		MsgSpec::TxHashSetRequest(s, h) => wire(Type::TxHashSetRequest, &TxHashSetRequest { hash: hash_from(*s, 1), height: *h }, v),
+		MsgSpec::TxHashSetArchive(s, h, len, aseed) => {
+			let mut m = wire(Type::TxHashSetArchive, &TxHashSetArchive { hash: hash_from(*s, 1), height: *h, bytes: *len as u64 }, v)?;
+			m.att = Some((*len, *aseed));
+			Ok(m)
+		}
+		MsgSpec::BanReason(r) => wire(Type::BanReason, &BanReason { ban_reason: REASONS[*r as usize % 8] }, v),
+		MsgSpec::GetTransaction(s) => wire(Type::GetTransaction, &hash_from(*s, 1), v),
+		MsgSpec::TransactionKernel(s) => wire(Type::TransactionKernel, &hash_from(*s, 1), v),
+		MsgSpec::SegRequest(w, s, h, idx) => {
+			let t = [Type::GetOutputBitmapSegment, Type::GetOutputSegment, Type::GetRangeProofSegment, Type::GetKernelSegment][*w as usize % 4];
+			wire(t, &SegmentRequest { block_hash: hash_from(*s, 1), identifier: SegmentIdentifier { height: *h, idx: *idx } }, v)
+		}
+		MsgSpec::KernelSeg(s, leaves, h, sel) => {
+			let off = (*s % 40) as usize;
+			let items: Vec<TxKernel> = p.kernels.iter().cycle().skip(off).take(40).cloned().collect();
+			wire(Type::KernelSegment, &SegmentResponse { block_hash: hash_from(*s, 1), segment: seg_from(&items, *leaves as usize, *h, *sel)? }, v)
+		}
+		MsgSpec::RangeProofSeg(s, leaves, h, sel) => {
+			let off = (*s % 24) as usize;
+			let items: Vec<RangeProof> = p.proofs.iter().cycle().skip(off).take(24).cloned().collect();
+			wire(Type::RangeProofSegment, &SegmentResponse { block_hash: hash_from(*s, 1), segment: seg_from(&items, *leaves as usize, *h, *sel)? }, v)
+		}
+		MsgSpec::OutputSeg(s, leaves, h, sel) => {
+			let off = (*s % 24) as usize;
+			let items: Vec<OutputIdentifier> = p.outids.iter().cycle().skip(off).take(24).cloned().collect();
+			let segment = seg_from(&items, *leaves as usize, *h, *sel)?;
+			wire(
+				Type::OutputSegment,
+				&OutputSegmentResponse { response: SegmentResponse { block_hash: hash_from(*s, 1), segment }, output_bitmap_root: hash_from(*s, 2) },
+				v,
+			)
+		}
+		MsgSpec::BitmapSeg(s, leaves, h, sel) => {
+			let chunks = bitmap_chunks(*s, *leaves as usize);
+			let seg = seg_from(&chunks, *leaves as usize, *h, *sel)?;
+			wire(
+				Type::OutputBitmapSegment,
+				&OutputBitmapSegmentResponse { block_hash: hash_from(*s, 1), segment: BitmapSegment::from(seg), output_root: hash_from(*s, 2) },
+				v,
+			)
+		}
+		MsgSpec::Unknown(t, len, seed) => Ok(WireMsg { t: (*t).max(29), body: hexs(&expand(*seed, 7, *len as usize)), att: None }),
+	}
+}
+
+// ------------------------------------------------------------------ fragmentation plans
+
+#[derive(Clone, Debug)]
+pub enum PlanSpec {
+	Whole,
+	Single(u16),
+	Multi(Vec<u16>),
+	Dribble,
+	/// every item boundary (header start, body start, attachment start, end) shifted by the offset
+	Edges(i8),
+	/// one split inside every message header and one inside every body / attachment
+	HeaderBody(u16, u16),
+}
+
+#[derive(Clone, Debug)]
+pub struct FragPlan {
+	plan: PlanSpec,
+	delays: Vec<u8>,
+}
+
+fn plan_strategy() -> impl Strategy<Value = FragPlan> {
+	let plan = prop_oneof![
+		1 => Just(PlanSpec::Whole),
+		2 => any::<u16>().prop_map(PlanSpec::Single),
+		4 => prop::collection::vec(any::<u16>(), 2..=40).prop_map(PlanSpec::Multi),
+		2 => Just(PlanSpec::Dribble),
+		2 => (-1i8..=1).prop_map(PlanSpec::Edges),
+		4 => (any::<u16>(), any::<u16>()).prop_map(|(a, b)| PlanSpec::HeaderBody(a, b)),
+	];
+	(plan, prop::collection::vec(0u8..6, 1..=6)).prop_map(|(plan, delays)| FragPlan { plan, delays })
+}
+
+#[derive(Clone, Debug)]
+pub struct FragSpec {
+	version: u8,
+	msgs: Vec<MsgSpec>,
+	plans: Vec<FragPlan>,
+}
+
+fn frag_strategy(plans: usize) -> impl Strategy<Value = FragSpec> {
+	(0u8..4, prop::collection::vec(any_msg(), 1..=12), prop::collection::vec(plan_strategy(), plans))
+		.prop_map(|(version, msgs, plans)| FragSpec { version, msgs, plans })
+}
+
+/// The replayable case of part `frag`.
+#[derive(Clone, Debug, Serialize, Deserialize)]
+pub struct WireCase {
+	pub version: u32,
+	pub msgs: Vec<WireMsg>,
+	/// sorted offsets (0 < c < stream length) at which the stream is split into separate writes
+	pub cuts: Vec<usize>,
+	/// sleep after fragment i = delays_us[i % len] µs (total capped at DELAY_BUDGET_US)
+	pub delays_us: Vec<u32>,
+	pub kind: String,
+}
+
+/// (header offset, body length, attachment length) per message, total length
+fn layout(msgs: &[WireMsg]) -> (Vec<(usize, usize, usize)>, usize) {
+	let mut at = 0;
+	let mut l = vec![];
+	for m in msgs {
+		let b = m.body.len() / 2;
+		let a = m.att.map(|a| a.0 as usize).unwrap_or(0);
+		l.push((at, b, a));
+		at += HDR + b + a;
+	}
+	(l, at)
+}
+
+fn cuts_for(plan: &PlanSpec, msgs: &[WireMsg]) -> (Vec<usize>, &'static str) {
+	let (lay, total) = layout(msgs);
+	let frac = |f: u16, lo: usize, hi: usize| -> Option<usize> {
+		// a point strictly inside (lo, hi)
+		if hi <= lo + 1 {
+			None
+		} else {
+			Some(lo + 1 + ((f as usize * (hi - lo - 1)) >> 16))
+		}
+	};
+	let (mut cuts, kind): (Vec<usize>, &'static str) = match plan {
+		PlanSpec::Whole => (vec![], "whole"),
+		PlanSpec::Single(f) => (frac(*f, 0, total).into_iter().collect(), "single"),
+		PlanSpec::Multi(fs) => (fs.iter().filter_map(|f| frac(*f, 0, total)).collect(), "multi"),
+		PlanSpec::Dribble => ((1..total.min(1201)).collect(), "dribble"),
+		PlanSpec::Edges(off) => {
+			let mut c = vec![];
+			for (s, b, a) in &lay {
+				for e in [*s, s + HDR, s + HDR + b, s + HDR + b + a] {
+					c.push((e as i64 + *off as i64).max(0) as usize);
+				}
+			}
+			(c, "edges")
+		}
+		PlanSpec::HeaderBody(f, g) => {
+			let mut c = vec![];
+			for (i, (s, b, a)) in lay.iter().enumerate() {
+				let fi = f.wrapping_add((i as u16).wrapping_mul(7919));
+				let gi = g.wrapping_add((i as u16).wrapping_mul(104_729u32 as u16));
+				c.extend(frac(fi, *s, s + HDR));
+				c.extend(frac(gi, s + HDR, s + HDR + b));
+				c.extend(frac(gi, s + HDR + b, s + HDR + b + a));
+			}
+			(c, "header+body")
+		}
+	};
+	cuts.retain(|c| *c > 0 && *c < total);
+	cuts.sort();
+	cuts.dedup();
+	(cuts, kind)
+}
+
+fn wire_case(spec: &FragSpec, plan: &FragPlan, p: &Pool, ev: Option<&Ev>) -> WireCase {
+	let v = VERSIONS[spec.version as usize % 4];
+	let mut msgs = vec![];
+	for m in &spec.msgs {
+		match build_msg(m, v, p) {
+			Ok(w) => msgs.push(w),
+			Err(e) => {
+				// the writer refuses this value at this version: a peer cannot send it
+				if let Some(ev) = ev {
+					ev.class(&format!("not_writable_at_version_{}:{}", v, truncate(&e, 60)));
+				}
+			}
+		}
+	}
+	if msgs.is_empty() {
+		msgs.push(build_msg(&MsgSpec::Ping(1, 1), v, p).expect("ping"));
+	}
+	let (cuts, kind) = cuts_for(&plan.plan, &msgs);
+	WireCase { version: v, msgs, cuts, delays_us: plan.delays.iter().map(|d| DELAYS_US[*d as usize % 6]).collect(), kind: kind.to_string() }
+}
+
+// ------------------------------------------------------------------ transport
+
+thread_local! {
+	static LISTENER: std::cell::RefCell<Option<TcpListener>> = std::cell::RefCell::new(None);
+}
+
+/// a connected loopback pair (writer end, reader end); one listener per harness thread
+fn socket_pair() -> Result<(TcpStream, TcpStream), Fail> {
+	LISTENER.with(|l| {
+		let mut l = l.borrow_mut();
+		if l.is_none() {
+			*l = Some(TcpListener::bind("127.0.0.1:0").map_err(harness("bind"))?);
+		}
+		let lis = l.as_ref().unwrap();
+		let addr = lis.local_addr().map_err(harness("local_addr"))?;
+		let w = TcpStream::connect(addr).map_err(harness("connect"))?;
+		let (r, peer) = lis.accept().map_err(harness("accept"))?;
+		if peer != w.local_addr().map_err(harness("local_addr"))? {
+			return Err(Fail::new("harness:io", "accepted a foreign connection"));
+		}
+		w.set_nodelay(true).map_err(harness("nodelay"))?;
+		let _ = w.set_write_timeout(Some(Duration::from_secs(30)));
+		Ok((w, r))
+	})
+}
+
+/// outcome of one attempt: a verdict, or "the reader did not get its bytes in time"
+/// (scheduling trouble or a codec stall — decided by `with_stall_retry`)
+enum Once<T> {
+	Done(T),
+	Stall(String),
+}
+
+/// A stall is a violation (`codec-stall`) only if it reproduces 3 times in a row;
+/// a stall that disappears on retry is recorded as harness noise.
+fn with_stall_retry<T>(ctx: &Ctx, what: &str, f: impl Fn() -> Result<Once<T>, Fail>) -> Result<T, Fail> {
+	let mut last = String::new();
+	for attempt in 0..3 {
+		match f()? {
+			Once::Done(t) => {
+				if attempt > 0 {
+					ctx.ev.class("harness_stall_disappeared_on_retry");
+				}
+				return Ok(t);
+			}
+			Once::Stall(m) => last = m,
+		}
+	}
+	Err(Fail::new("codec-stall", format!("{}: reader stalled 3 times in a row although all bytes were written: {}", what, last)))
+}
+
+fn is_timeout(e: &grin_p2p::Error) -> bool {
+	match e {
+		grin_p2p::Error::Connection(e) => matches!(e.kind(), std::io::ErrorKind::TimedOut | std::io::ErrorKind::WouldBlock),
+		_ => false,
+	}
+}
+
+/// Writes `stream` split at `cuts` (with the plan's delays), half-closes, then acts as the
+/// watchdog: if the reader has not finished WATCHDOG after the last byte, the socket is
+/// shut down so the reader returns. Returns true if the watchdog fired.
+fn writer_thread(mut w: TcpStream, stream: &[u8], cuts: &[usize], delays_us: &[u32], done: mpsc::Receiver<()>, half_close: bool) -> bool {
+	let mut at = 0;
+	let mut slept = 0u64;
+	let mut bounds: Vec<usize> = cuts.to_vec();
+	bounds.push(stream.len());
+	for (i, b) in bounds.iter().enumerate() {
+		if *b > at {
+			if w.write_all(&stream[at..*b]).is_err() {
+				// the reader went away (it reports why)
+				return false;
+			}
+			at = *b;
+		}
+		if !delays_us.is_empty() && i + 1 < bounds.len() {
+			let d = delays_us[i % delays_us.len()] as u64;
+			if d > 0 && slept + d <= DELAY_BUDGET_US {
+				slept += d;
+				std::thread::sleep(Duration::from_micros(d));
+			}
+		}
+	}
+	if half_close {
+		let _ = w.shutdown(Shutdown::Write);
+	}
+	match done.recv_timeout(WATCHDOG) {
+		Ok(()) | Err(mpsc::RecvTimeoutError::Disconnected) => {
+			if !half_close {
+				let _ = w.shutdown(Shutdown::Write);
+			}
+			false
+		}
+		Err(mpsc::RecvTimeoutError::Timeout) => {
+			let _ = w.shutdown(Shutdown::Both);
+			true
+		}
+	}
+}
+
+// ------------------------------------------------------------------ part frag: the check
+
+/// re-encode a received plain message: (type byte, body)
+fn reencode(m: Message, v: u32) -> Result<(u8, Vec<u8>), String> {
+	fn e<T: Writeable>(t: Type, x: &T, v: u32) -> Result<(u8, Vec<u8>), String> {
+		enc(x, v).map(|b| (t as u8, b)).map_err(|e| format!("re-encoding {:?}: {:?}", t, e))
+	}
+	match m {
+		Message::Ping(x) => e(Type::Ping, &x, v),
+		Message::Pong(x) => e(Type::Pong, &x, v),
+		Message::BanReason(x) => e(Type::BanReason, &x, v),
+		Message::TransactionKernel(x) => e(Type::TransactionKernel, &x, v),
+		Message::GetTransaction(x) => e(Type::GetTransaction, &x, v),
+		Message::Transaction(x) => e(Type::Transaction, &x, v),
+		Message::StemTransaction(x) => e(Type::StemTransaction, &x, v),
+		Message::GetBlock(x) => e(Type::GetBlock, &x, v),
+		Message::Block(x) => e(Type::Block, &Block::from(x), v),
+		Message::GetCompactBlock(x) => e(Type::GetCompactBlock, &x, v),
+		Message::CompactBlock(x) => e(Type::CompactBlock, &CompactBlock::from(x), v),
+		Message::GetHeaders(x) => e(Type::GetHeaders, &x, v),
+		Message::Header(x) => e(Type::Header, &BlockHeader::from(x), v),
+		Message::GetPeerAddrs(x) => e(Type::GetPeerAddrs, &x, v),
+		Message::PeerAddrs(x) => e(Type::PeerAddrs, &x, v),
+		Message::TxHashSetRequest(x) => e(Type::TxHashSetRequest, &x, v),
+		Message::TxHashSetArchive(x) => e(Type::TxHashSetArchive, &x, v),
+		Message::GetOutputBitmapSegment(x) => e(Type::GetOutputBitmapSegment, &x, v),
+		Message::OutputBitmapSegment(x) => e(Type::OutputBitmapSegment, &x, v),
+		Message::GetOutputSegment(x) => e(Type::GetOutputSegment, &x, v),
+		Message::OutputSegment(x) => e(Type::OutputSegment, &x, v),
+		Message::GetRangeProofSegment(x) => e(Type::GetRangeProofSegment, &x, v),
+		Message::RangeProofSegment(x) => e(Type::RangeProofSegment, &x, v),
+		Message::GetKernelSegment(x) => e(Type::GetKernelSegment, &x, v),
+		Message::KernelSegment(x) => e(Type::KernelSegment, &x, v),
+		Message::Unknown(t) => Err(format!("Unknown({})", t)),
+		Message::Headers(d) => Err(format!("Headers(batch of {}, remaining {})", d.headers.len(), d.remaining)),
+		Message::Attachment(u, _) => Err(format!("Attachment(read {}, left {})", u.read, u.left)),
+	}
+}
+
+fn describe(r: &Result<Message, grin_p2p::Error>) -> String {
+	match r {
+		Ok(Message::Headers(d)) => format!("Ok(headers: batch of {}, remaining {})", d.headers.len(), d.remaining),
+		Ok(Message::Attachment(u, _)) => format!("Ok(attachment: read {}, left {})", u.read, u.left),
+		Ok(m) => format!("Ok({})", m),
+		Err(e) => format!("Err({:?})", e),
+	}
+}
+
+#[derive(Default)]
+struct FragStats {
+	reads: u64,
+	batches: u64,
+	max_batch: usize,
+	chunks: u64,
+	bytes: u64,
+}
+
+struct Sent {
+	t: u8,
+	body: Vec<u8>,
+	att: Option<Vec<u8>>,
+}
+
+fn sent_of(case: &WireCase) -> Result<(Vec<Sent>, Vec<u8>), Fail> {
+	let mut sent = vec![];
+	let mut stream = vec![];
+	for m in &case.msgs {
+		let body = unhex(&m.body)?;
+		let att = m.att.map(|(len, seed)| expand(seed, 9, len as usize));
+		let h = frame_header(OTHER_MAGIC, m.t, body.len() as u64);
+		if let Some(ty) = known(m.t) {
+			// the frame header the harness writes is what the repository's own writer produces
+			let theirs = enc(&MsgHeader::new(ty, body.len() as u64), case.version).map_err(harness("MsgHeader"))?;
+			ensure!(theirs == h, "harness:frame-header-model", "MsgHeader encodes as {} but the documented layout gives {}", hexs(&theirs), hexs(&h));
+		}
+		stream.extend_from_slice(&h);
+		stream.extend_from_slice(&body);
+		if let Some(a) = &att {
+			stream.extend_from_slice(a);
+		}
+		sent.push(Sent { t: m.t, body, att });
+	}
+	Ok((sent, stream))
+}
+
+/// The reader side: drives `Codec::read` exactly as conn.rs does (expect_attachment after a
+/// TxHashSetArchive) and compares with what was sent.
+fn read_and_compare(codec: &mut Codec, v: u32, sent: &[Sent], total: usize, st: &mut FragStats) -> Result<Once<()>, Fail> {
+	macro_rules! rd {
+		($i:expr, $t:expr) => {{
+			let (r, n) = codec.read();
+			st.reads += 1;
+			st.bytes += n;
+			if let Err(e) = &r {
+				if is_timeout(e) {
+					return Ok(Once::Stall(format!("message {} ({}): {:?}", $i, tname($t), e)));
+				}
+			}
+			r
+		}};
+	}
+	for (i, s) in sent.iter().enumerate() {
+		let name = tname(s.t);
+		if known(s.t).is_none() {
+			let r = rd!(i, s.t);
+			match r {
+				Ok(Message::Unknown(t)) if t == s.t => {}
+				other => fail!("frag-unknown-type-not-skipped", "message {}: unknown type byte {} with a {}-byte body was read as {}", i, s.t, s.body.len(), describe(&other)),
+			}
+			continue;
+		}
+		if s.t == Type::Headers as u8 {
+			let n = u16::from_be_bytes([s.body[0], s.body[1]]) as usize;
+			let mut got: Vec<BlockHeader> = vec![];
+			loop {
+				let r = rd!(i, s.t);
+				let d = match r {
+					Ok(Message::Headers(d)) => d,
+					Err(grin_p2p::Error::BadMessage) if n == 0 => {
+						let (next, _) = codec.read();
+						fail!(
+							"zero-headers-badmessage",
+							"message {}: a Headers message with zero items (body 0000, what a peer with nothing newer answers to GetHeaders) is refused with BadMessage instead of being read as an empty list (the read after the error returned {})",
+							i,
+							describe(&next)
+						)
+					}
+					other => fail!("frag-read-error:Headers", "message {}: header list of {} ({} received so far): read returned {}", i, n, got.len(), describe(&other)),
+				};
+				st.batches += 1;
+				st.max_batch = st.max_batch.max(d.headers.len());
+				ensure!(n == 0 || !d.headers.is_empty(), "frag-headers-empty-batch", "message {}: empty batch inside a list of {}", i, n);
+				got.extend(d.headers);
+				ensure!(got.len() <= n, "frag-headers-too-many", "message {}: {} headers delivered for a list of {}", i, got.len(), n);
+				ensure!(
+					d.remaining == (n - got.len()) as u64,
+					"frag-headers-remaining",
+					"message {}: after {} of {} headers the batch says remaining = {}",
+					i,
+					got.len(),
+					n,
+					d.remaining
+				);
+				if got.len() == n {
+					break;
+				}
+			}
+			let mut re = (n as u16).to_be_bytes().to_vec();
+			for h in &got {
+				re.extend_from_slice(&enc(h, v).map_err(harness("re-encode header"))?);
+			}
+			ensure!(re == s.body, "frag-body-mismatch:Headers", "message {}: the {} delivered headers re-encode differently from the sent list", i, n);
+			continue;
+		}
+		let r = rd!(i, s.t);
+		let m = match r {
+			Ok(m) => m,
+			Err(e) => fail!(format!("frag-read-error:{}", name), "message {} ({}, {} body bytes): read returned Err({:?})", i, name, s.body.len(), e),
+		};
+		let att_size = match &m {
+			Message::TxHashSetArchive(a) => Some((a.bytes as usize, a.hash, a.height)),
+			_ => None,
+		};
+		let shown = format!("{}", m);
+		match reencode(m, v) {
+			Ok((t, b)) => {
+				ensure!(t == s.t, "frag-variant-mismatch", "message {}: sent {} but read {}", i, name, shown);
+				ensure!(
+					b == s.body,
+					format!("frag-body-mismatch:{}", name),
+					"message {} ({}): read value re-encodes as {} but {} was sent",
+					i,
+					name,
+					truncate(&hexs(&b), 300),
+					truncate(&hexs(&s.body), 300)
+				);
+			}
+			Err(what) => fail!("frag-variant-mismatch", "message {}: sent {} but read {}", i, name, what),
+		}
+		if let (Some(att), Some((size, hash, height))) = (&s.att, att_size) {
+			// what protocol.rs answers with: Consumed::Attachment(meta) -> codec.expect_attachment(meta)
+			let meta = Arc::new(AttachmentMeta { size, hash, height, start_time: Utc::now(), path: std::path::PathBuf::new() });
+			codec.expect_attachment(meta);
+			let mut got: Vec<u8> = Vec::with_capacity(size);
+			loop {
+				let r = rd!(i, s.t);
+				let (u, bytes) = match r {
+					Ok(Message::Attachment(u, Some(b))) => (u, b),
+					other => fail!("frag-read-error:Attachment", "message {}: attachment of {} bytes ({} received): read returned {}", i, size, got.len(), describe(&other)),
+				};
+				st.chunks += 1;
+				ensure!(u.read == bytes.len(), "frag-attachment-update", "message {}: chunk of {} bytes announced as read = {}", i, bytes.len(), u.read);
+				got.extend_from_slice(&bytes[..]);
+				ensure!(got.len() <= att.len(), "frag-attachment-too-long", "message {}: {} attachment bytes delivered of {}", i, got.len(), att.len());
+				ensure!(u.left == att.len() - got.len(), "frag-attachment-update", "message {}: after {} of {} bytes the update says left = {}", i, got.len(), att.len(), u.left);
+				if u.left == 0 {
+					break;
+				}
+				ensure!(!bytes.is_empty(), "frag-attachment-empty-chunk", "message {}: empty chunk with {} bytes left", i, u.left);
+			}
+			ensure!(got == *att, "frag-attachment-mismatch", "message {}: the {} attachment bytes delivered differ from the bytes sent", i, att.len());
+		}
+	}
+	// every read reports the bytes it pulled from the socket: nothing left over, nothing read twice
+	ensure!(st.bytes == total as u64, "frag-bytes-read-sum", "the reads report {} bytes in total but {} were sent", st.bytes, total);
+	Ok(Once::Done(()))
+}
+
+fn frag_once(case: &WireCase, sent: &[Sent], stream: &[u8]) -> Result<Once<FragStats>, Fail> {
+	let (w, r) = socket_pair()?;
+	let (done_tx, done_rx) = mpsc::channel::<()>();
+	let mut st = FragStats::default();
+	let (res, fired) = std::thread::scope(|sc| {
+		let cuts = &case.cuts;
+		let delays = &case.delays_us;
+		let wh = sc.spawn(move || writer_thread(w, stream, cuts, delays, done_rx, true));
+		let mut codec = Codec::new(ProtocolVersion(case.version), r);
+		let res = catch(|| read_and_compare(&mut codec, case.version, sent, stream.len(), &mut st));
+		drop(codec);
+		let _ = done_tx.send(());
+		let fired = wh.join().unwrap_or(false);
+		(res, fired)
+	});
+	let res = match res {
+		Ok(r) => r,
+		Err(panic) => Err(panic),
+	};
+	if fired {
+		return Ok(Once::Stall(format!("watchdog fired; reader said {:?}", res.as_ref().map(|_| ()).map_err(|f| f.msg.clone()))));
+	}
+	Ok(match res? {
+		Once::Done(()) => Once::Done(st),
+		Once::Stall(m) => Once::Stall(m),
+	})
+}
+
+pub fn check_frag(ctx: &Ctx, case: &WireCase, counting: bool) -> PResult {
+	init_thread();
+	let (sent, stream) = sent_of(case)?;
+	for c in &case.cuts {
+		ensure!(*c > 0 && *c < stream.len(), "harness:replay-parse", "cut {} outside the stream of {} bytes", c, stream.len());
+	}
+	let st = with_stall_retry(ctx, "frag", || frag_once(case, &sent, &stream))?;
+	if counting {
+		let ev = &ctx.ev;
+		ev.eval();
+		ev.class(&format!("version:{}", case.version));
+		ev.class(&format!("frag_kind:{}", case.kind));
+		ev.class_n("codec_reads", st.reads);
+		ev.class_n("fragments_written", case.cuts.len() as u64 + 1);
+		if st.max_batch > 0 {
+			ev.class(&format!("largest_header_batch:{}", st.max_batch));
+		}
+		let (lay, _) = layout(&case.msgs);
+		let (mut in_hdr, mut in_body) = (false, false);
+		for c in &case.cuts {
+			for (s, b, a) in &lay {
+				if *c > *s && *c < s + HDR {
+					in_hdr = true;
+				}
+				if (*c > s + HDR && *c < s + HDR + b) || (*c > s + HDR + b && *c < s + HDR + b + a) {
+					in_body = true;
+				}
+			}
+		}
+		let mut types: Vec<u8> = vec![];
+		let (mut batched, mut attached) = (0usize, 0usize);
+		for (m, s) in case.msgs.iter().zip(&sent) {
+			ev.class(&format!("msg_type:{}", tname(m.t)));
+			types.push(m.t.min(29));
+			if m.t == Type::Headers as u8 {
+				let n = u16::from_be_bytes([s.body[0], s.body[1]]);
+				ev.class(&format!("headers_list_size:{}", match n {
+					0 | 1 | 31 | 32 | 33 | 64 | 65 | 89 => n.to_string(),
+					2..=30 => "2-30".into(),
+					34..=63 => "34-63".into(),
+					_ => "66-88".into(),
+				}));
+				if n > 32 {
+					batched = batched.max(n as usize);
+				}
+			}
+			if let Some(a) = &s.att {
+				ev.class(&format!("attachment_size:{}", match a.len() {
+					0 => "0".to_string(),
+					1..=199 => "1-199".into(),
+					200..=47_999 => "200-47999".into(),
+					48_000 => "48000".into(),
+					48_001..=96_000 => "48001-96000".into(),
+					_ => "96001-200000".into(),
+				}));
+				if !a.is_empty() {
+					attached = attached.max(a.len());
+				}
+			}
+		}
+		if in_hdr && in_body && (batched > 0 || attached > 0) {
+			types.sort();
+			types.dedup();
+			ev.class("nontrivial_sequences");
+			ev.nontrivial(&(case.version, types, (batched + 31) / 32, (attached + 47_999) / 48_000, &case.kind));
+		}
+		ev.sample(&format!("frag:{}", case.kind), || {
+			json!({"version": case.version, "kind": case.kind, "messages": case.msgs.iter().map(|m| json!({"type": tname(m.t), "body_len": m.body.len() / 2, "att": m.att})).collect::<Vec<_>>(), "cuts": case.cuts.iter().take(24).collect::<Vec<_>>(), "n_cuts": case.cuts.len(), "delays_us": case.delays_us})
+		});
+	}
 	Ok(())
 }
 
+// ------------------------------------------------------------------ part limits
+
+/// `variant`: "magic-net" (another network's magic), "magic-b0" / "magic-b1" (one bit of a
+/// magic byte flipped), "len" (announced length `len`), and for header lists
+/// "count-large" / "count-small" / "count-zero" (`n` real headers on the wire, the count
+/// field says n+1 / n-1 / 0).
+#[derive(Clone, Debug, Serialize, Deserialize)]
+pub struct LimitCase {
+	pub mainnet: bool,
+	pub t: u8,
+	pub variant: String,
+	pub len: u64,
+	#[serde(default)]
+	pub n: u16,
+}
+
+fn set_chain(mainnet: bool) {
+	global::set_local_chain_type(if mainnet { ChainTypes::Mainnet } else { ChainTypes::AutomatedTesting });
+}
+
+struct LimitFrame {
+	/// header + the body bytes offered on the wire
+	bytes: Vec<u8>,
+	/// the header rule of the code refuses it (wrong magic, or announced length > 4 x nominal)
+	refused_by_header: bool,
+	/// inconsistent item count: must end in an error, cannot be known from the header
+	count_variant: bool,
+	announced: u64,
+}
+
+fn limit_frame(c: &LimitCase, pool: Option<&Pool>) -> Result<LimitFrame, Fail> {
+	let magic = if c.mainnet { MAINNET_MAGIC } else { OTHER_MAGIC };
+	let max = nominal_max(c.t);
+	match c.variant.as_str() {
+		"magic-net" | "magic-b0" | "magic-b1" => {
+			let m = match c.variant.as_str() {
+				"magic-net" => {
+					if c.mainnet {
+						OTHER_MAGIC
+					} else {
+						MAINNET_MAGIC
+					}
+				}
+				"magic-b0" => [magic[0] ^ 0x20, magic[1]],
+				_ => [magic[0], magic[1] ^ 0x01],
+			};
+			let len = c.len.min(max);
+			let mut bytes = frame_header(m, c.t, len);
+			bytes.extend_from_slice(&vec![0u8; len as usize]);
+			Ok(LimitFrame { bytes, refused_by_header: true, count_variant: false, announced: len })
+		}
+		"len" => {
+			let refused = c.len > 4 * max;
+			let offered = if refused { c.len.saturating_sub(1).min(4096) } else { c.len };
+			let mut bytes = frame_header(magic, c.t, c.len);
+			bytes.extend_from_slice(&vec![0u8; offered as usize]);
+			Ok(LimitFrame { bytes, refused_by_header: refused, count_variant: false, announced: c.len })
+		}
+		"count-large" | "count-small" | "count-zero" => {
+			let p = pool.ok_or_else(|| Fail::new("harness:pool", "header-count variants need the pool"))?;
+			ensure!(!c.mainnet && c.t == Type::Headers as u8, "harness:replay-parse", "count variants are for Headers on the testing chain");
+			let n = (c.n as usize).clamp(1, p.headers.len());
+			let count: u16 = match c.variant.as_str() {
+				"count-large" => n as u16 + 1,
+				"count-small" => n as u16 - 1,
+				_ => 0,
+			};
+			let mut body = count.to_be_bytes().to_vec();
+			for h in &p.headers[..n] {
+				body.extend_from_slice(&enc(h, 1000).map_err(harness("header"))?);
+			}
+			let mut bytes = frame_header(magic, c.t, body.len() as u64);
+			let announced = body.len() as u64;
+			bytes.extend_from_slice(&body);
+			Ok(LimitFrame { bytes, refused_by_header: false, count_variant: true, announced })
+		}
+		other => Err(Fail::new("harness:replay-parse", format!("unknown variant {}", other))),
+	}
+}
+
+struct LimitObs {
+	results: Vec<String>,
+	any_err: bool,
+	final_ok: bool,
+	delivered_headers: usize,
+	/// bytes of the frame taken from the socket, measured by draining what is left
+	consumed: usize,
+	tail_ok: bool,
+}
+
+fn limit_once(c: &LimitCase, f: &LimitFrame) -> Result<Once<LimitObs>, Fail> {
+	let magic = if c.mainnet { MAINNET_MAGIC } else { OTHER_MAGIC };
+	let ping = {
+		let mut b = frame_header(magic, Type::Ping as u8, 16);
+		b.extend_from_slice(&enc(&Ping { total_difficulty: Difficulty::from_num(7), height: 9 }, 1000).map_err(harness("ping"))?);
+		b
+	};
+	// a valid Ping, the frame under test, and (where the frame is complete on the wire) a valid Ping behind it
+	let tail = if f.refused_by_header && c.variant == "len" { vec![] } else { ping.clone() };
+	let mut stream = ping.clone();
+	stream.extend_from_slice(&f.bytes);
+	stream.extend_from_slice(&tail);
+	let (w, r) = socket_pair()?;
+	let (done_tx, done_rx) = mpsc::channel::<()>();
+	let stream_ref = &stream;
+	let out = std::thread::scope(|sc| -> Result<Once<LimitObs>, Fail> {
+		let wh = sc.spawn(move || writer_thread(w, stream_ref, &[], &[], done_rx, false));
+		let mut codec = Codec::new(ProtocolVersion(1000), r);
+		let mut obs = LimitObs { results: vec![], any_err: false, final_ok: false, delivered_headers: 0, consumed: 0, tail_ok: false };
+		let (first, _) = codec.read();
+		let mut stall = None;
+		if !matches!(first, Ok(Message::Ping(_))) {
+			let _ = done_tx.send(());
+			let _ = wh.join();
+			if first.as_ref().err().map(is_timeout).unwrap_or(false) {
+				return Ok(Once::Stall("leading ping timed out".into()));
+			}
+			fail!("harness:limit-leading-ping", "the valid leading Ping was read as {}", describe(&first));
+		}
+		// read until the frame is answered with an error or with a completed message
+		for _ in 0..40 {
+			let (r, _) = codec.read();
+			obs.results.push(describe(&r));
+			match r {
+				Err(e) => {
+					if is_timeout(&e) {
+						stall = Some(format!("{:?}", e));
+					}
+					obs.any_err = true;
+					break;
+				}
+				Ok(Message::Headers(d)) => {
+					obs.delivered_headers += d.headers.len();
+					if d.remaining == 0 {
+						obs.final_ok = true;
+						break;
+					}
+				}
+				Ok(_) => {
+					obs.final_ok = true;
+					break;
+				}
+			}
+		}
+		// what the codec left in the socket (the writer half-closes once it is told we are done)
+		let mut rest = codec.stream();
+		let _ = done_tx.send(());
+		let _ = rest.set_read_timeout(Some(WATCHDOG));
+		let mut left = vec![];
+		let drained = rest.read_to_end(&mut left);
+		let fired = wh.join().unwrap_or(false);
+		if fired || stall.is_some() {
+			return Ok(Once::Stall(format!("reads so far {:?} (watchdog fired: {})", obs.results, fired)));
+		}
+		drained.map_err(harness("drain"))?;
+		ensure!(left.len() <= f.bytes.len() + tail.len(), "harness:limit-drain", "drained {} bytes, more than were sent", left.len());
+		obs.consumed = f.bytes.len() + tail.len() - left.len();
+		obs.tail_ok = left.ends_with(&tail);
+		Ok(Once::Done(obs))
+	})?;
+	Ok(out)
+}
+
+pub fn check_limit(ctx: &Ctx, c: &LimitCase, counting: bool) -> PResult {
+	init_thread();
+	set_chain(c.mainnet);
+	let r = check_limit_inner(ctx, c, counting);
+	set_chain(false);
+	r
+}
+
+fn check_limit_inner(ctx: &Ctx, c: &LimitCase, counting: bool) -> PResult {
+	let pool = if c.variant.starts_with("count") { Some(pool(ctx).map_err(|e| Fail::new("harness:pool", e))?) } else { None };
+	let f = limit_frame(c, pool)?;
+	let name = tname(c.t);
+	let max = nominal_max(c.t);
+	let o = match with_stall_retry(ctx, "limits", || limit_once(c, &f)) {
+		Ok(o) => o,
+		Err(mut fl) => {
+			if f.refused_by_header {
+				fl.sig = "limit-waited-for-body".into();
+				fl.msg = format!("{} {}: the reader did not answer a frame its header rule refuses without more bytes: {}", name, c.variant, fl.msg);
+			}
+			return Err(fl);
+		}
+	};
+	let what = format!("{} {} (announced {}, nominal max {}, chain {})", name, c.variant, f.announced, max, if c.mainnet { "Mainnet" } else { "AutomatedTesting" });
+	if f.refused_by_header {
+		ensure!(o.any_err && !o.final_ok, format!("limit-not-refused:{}", c.variant), "{}: read returned {:?}", what, o.results);
+		ensure!(
+			o.consumed == HDR,
+			"limit-body-consumed",
+			"{}: the refused frame had {} of its bytes taken from the socket (header = {}); reads: {:?}",
+			what,
+			o.consumed,
+			HDR,
+			o.results
+		);
+	} else if f.count_variant {
+		ensure!(o.any_err && !o.final_ok, format!("limit-not-refused:{}", c.variant), "{}: a header list whose count disagrees with its length ended with {:?}", what, o.results);
+		ensure!(o.consumed <= f.bytes.len(), "limit-read-past-frame", "{}: {} bytes consumed, the frame has {}", what, o.consumed, f.bytes.len());
+		ensure!(o.tail_ok, "limit-read-past-frame", "{}: the message behind the frame was touched", what);
+		if c.variant == "count-zero" && o.delivered_headers > 0 {
+			fail!(
+				"headers-count0-trailing-delivered",
+				"{}: a Headers frame announcing 0 items followed by {} headers had {} headers delivered as successful batches before the error; reads: {:?}",
+				what,
+				c.n,
+				o.delivered_headers,
+				o.results
+			);
+		}
+	} else {
+		// the header rule accepts it. Up to the nominal maximum this must be so (a legitimate
+		// message of maximal size has to be readable): the body is taken from the socket.
+		if c.len <= max && c.len > 0 && c.t != Type::Headers as u8 {
+			ensure!(o.consumed == f.bytes.len(), "limit-legit-length-refused", "{}: only {} of {} bytes consumed; reads {:?}", what, o.consumed, f.bytes.len(), o.results);
+		}
+	}
+	if counting {
+		let ev = &ctx.ev;
+		ev.eval();
+		ev.class(&format!("limit_variant:{}", c.variant));
+		ev.class(&format!("limit_type:{}", name));
+		if c.variant == "len" {
+			let zone = if c.len <= max {
+				"at_or_below_nominal"
+			} else if c.len <= 4 * max {
+				"above_nominal_but_within_4x:accepted_by_code"
+			} else {
+				"above_4x:refused"
+			};
+			ev.class(&format!("limit_len_zone:{}", zone));
+			if c.len > max && c.len <= 4 * max && o.consumed > HDR {
+				ev.class("frames_above_nominal_limit_whose_body_was_read");
+			}
+		}
+		if f.count_variant && o.delivered_headers > 0 {
+			ev.class(&format!("count_variant_batches_delivered_before_error:{}", c.variant));
+		}
+		ev.sample(&format!("limits:{}", c.variant), || json!({"case": c, "reads": o.results, "frame_bytes_consumed": o.consumed}));
+	}
+	Ok(())
+}
+
+fn limit_table(mainnet: bool) -> Vec<LimitCase> {
+	set_chain(mainnet);
+	let mut v = vec![];
+	let mut types: Vec<u8> = (0u8..29).collect();
+	types.extend([29u8, 77, 255]);
+	for t in types {
+		let max = nominal_max(t);
+		for variant in ["magic-net", "magic-b0", "magic-b1"] {
+			v.push(LimitCase { mainnet, t, variant: variant.into(), len: 16, n: 0 });
+		}
+		let mut lens = vec![max, max + 1, 4 * max, 4 * max + 1, 4 * max + 4097, 1u64 << 32, 1u64 << 63, u64::MAX];
+		lens.dedup();
+		for len in lens {
+			v.push(LimitCase { mainnet, t, variant: "len".into(), len, n: 0 });
+		}
+	}
+	if !mainnet {
+		for n in [1u16, 2, 31, 32, 33, 64] {
+			for variant in ["count-large", "count-small", "count-zero"] {
+				v.push(LimitCase { mainnet, t: Type::Headers as u8, variant: variant.into(), len: 0, n });
+			}
+		}
+	}
+	set_chain(false);
+	v
+}
+
+// ---- allocation while refusing: single-threaded child under the counting allocator
+
+/// `gv child x C19 alloc <cases.json> <out.jsonl>`: for every case write the frame into a
+/// loopback socket, half-close, and run one `Codec::read` under the counting allocator.
+pub fn child(args: &[String]) -> i32 {
+	if args.len() < 3 || args[0] != "alloc" {
+		return 2;
+	}
+	init_global();
+	let Ok(s) = std::fs::read_to_string(&args[1]) else { return 2 };
+	let Ok(cases) = serde_json::from_str::<Vec<LimitCase>>(&s) else { return 2 };
+	let Ok(mut out) = std::fs::File::create(&args[2]) else { return 2 };
+	for (i, c) in cases.iter().enumerate() {
+		set_chain(c.mainnet);
+		let line = match child_one(c) {
+			Ok(v) => v,
+			Err(e) => json!({"i": i, "harness_error": e}),
+		};
+		let mut line = line;
+		line["i"] = json!(i);
+		let _ = writeln!(out, "{}", line);
+		let _ = out.flush();
+	}
+	0
+}
+
+fn child_one(c: &LimitCase) -> Result<Value, String> {
+	let f = limit_frame(c, None).map_err(|e| e.msg)?;
+	let lis = TcpListener::bind("127.0.0.1:0").map_err(|e| e.to_string())?;
+	let mut w = TcpStream::connect(lis.local_addr().map_err(|e| e.to_string())?).map_err(|e| e.to_string())?;
+	let (r, _) = lis.accept().map_err(|e| e.to_string())?;
+	if f.bytes.len() > 16 * 1024 {
+		return Err("frame too large for the single-threaded child".into());
+	}
+	w.write_all(&f.bytes).map_err(|e| e.to_string())?;
+	w.shutdown(Shutdown::Write).map_err(|e| e.to_string())?;
+	let mut codec = Codec::new(ProtocolVersion(1000), r);
+	alloc::start(0);
+	let (res, n) = codec.read();
+	let (largest, peak) = alloc::stop();
+	Ok(json!({"largest": largest, "peak": peak, "bytes_read": n, "result": describe(&res), "is_err": res.is_err()}))
+}
+
+/// run the child over a batch; one Value per case (Null = the child died at/before it)
+fn alloc_batch(ctx: &Ctx, cases: &[LimitCase]) -> Result<Vec<Value>, Fail> {
+	let dir = ctx.scratch_dir("alloc");
+	let inp = dir.join("cases.json");
+	let outp = dir.join("out.jsonl");
+	std::fs::write(&inp, serde_json::to_string(cases).unwrap()).map_err(harness("write cases"))?;
+	let exe = std::env::current_exe().map_err(harness("current_exe"))?;
+	let status = std::process::Command::new(exe)
+		.args(["child", "x", "C19", "alloc", inp.to_str().unwrap(), outp.to_str().unwrap()])
+		.env("GV_ROOT", &ctx.root)
+		.stdin(std::process::Stdio::null())
+		.stdout(std::process::Stdio::null())
+		.status()
+		.map_err(harness("spawn child"))?;
+	let body = std::fs::read_to_string(&outp).unwrap_or_default();
+	let mut res = vec![Value::Null; cases.len()];
+	for line in body.lines() {
+		if let Ok(v) = serde_json::from_str::<Value>(line) {
+			if let Some(i) = v["i"].as_u64() {
+				if (i as usize) < res.len() {
+					res[i as usize] = v;
+				}
+			}
+		}
+	}
+	let _ = std::fs::remove_dir_all(&dir);
+	if !status.success() && res.iter().all(|v| !v.is_null()) {
+		return Err(Fail::new("harness:alloc-child", format!("child exited with {:?}", status)));
+	}
+	Ok(res)
+}
+
+/// allocations below this size are bookkeeping, not "the announced body"
+const ALLOC_FLOOR: u64 = 4096;
+
+fn judge_alloc(ctx: &Ctx, c: &LimitCase, v: &Value, counting: bool) -> PResult {
+	let what = format!("{} {} announced {} ({})", tname(c.t), c.variant, c.len, if c.mainnet { "Mainnet" } else { "AutomatedTesting" });
+	if v.is_null() {
+		fail!("over-limit-alloc-abort", "{}: the reading process died while answering this frame (allocation failure / abort)", what);
+	}
+	if let Some(e) = v["harness_error"].as_str() {
+		fail!("harness:alloc-child", "{}: {}", what, e);
+	}
+	let largest = v["largest"].as_u64().unwrap_or(0);
+	let peak = v["peak"].as_u64().unwrap_or(0);
+	ensure!(v["is_err"].as_bool() == Some(true), "limit-not-refused:len", "{}: single-threaded read returned {}", what, v["result"]);
+	if c.len >= ALLOC_FLOOR {
+		ensure!(
+			largest < c.len && peak < c.len,
+			"over-limit-alloc",
+			"{}: while refusing, the largest single allocation was {} bytes and the live peak {} bytes (announced {})",
+			what,
+			largest,
+			peak,
+			c.len
+		);
+	}
+	if counting {
+		ctx.ev.eval();
+		ctx.ev.class(if c.len >= ALLOC_FLOOR { "alloc_checked_refused_frames" } else { "alloc_measured_only_announced_below_4096" });
+		let mut g = ctx.ev.0.lock().unwrap();
+		let cur = g.extra.get("largest_allocation_while_refusing").and_then(|x| x.as_u64()).unwrap_or(0);
+		g.extra.insert("largest_allocation_while_refusing".into(), json!(cur.max(largest)));
+	}
+	Ok(())
+}
+
+pub fn check_limit_alloc(ctx: &Ctx, c: &LimitCase, counting: bool) -> PResult {
+	let r = alloc_batch(ctx, std::slice::from_ref(c))?;
+	judge_alloc(ctx, c, &r[0], counting)
+}
+
+// ------------------------------------------------------------------ part handshake
+
+/// scenario: "accept" (real accept, scripted Hand of `version`), "initiate" (real initiate,
+/// scripted Shake of `version`), "real-real", "genesis-accept" (two real instances),
+/// "genesis-initiate" (scripted Shake with another genesis), "self" (one instance dials itself)
+#[derive(Clone, Debug, Serialize, Deserialize)]
+pub struct HsCase {
+	pub scenario: String,
+	pub version: u32,
+}
+
+fn write_frame(s: &mut TcpStream, t: u8, body: &[u8]) -> std::io::Result<()> {
+	let mut b = frame_header(OTHER_MAGIC, t, body.len() as u64);
+	b.extend_from_slice(body);
+	s.write_all(&b)
+}
+
+fn read_frame(s: &mut TcpStream) -> Result<(u8, Vec<u8>), Fail> {
+	let _ = s.set_read_timeout(Some(WATCHDOG));
+	let mut h = [0u8; HDR];
+	s.read_exact(&mut h).map_err(|e| Fail::new("handshake-no-reply", format!("the real side sent no frame: {}", e)))?;
+	ensure!([h[0], h[1]] == OTHER_MAGIC, "handshake-frame", "reply carries magic {:?}", &h[..2]);
+	let mut l = [0u8; 8];
+	l.copy_from_slice(&h[3..]);
+	let len = u64::from_be_bytes(l);
+	ensure!(len <= 1024, "handshake-frame", "reply announces {} bytes", len);
+	let mut body = vec![0u8; len as usize];
+	s.read_exact(&mut body).map_err(|e| Fail::new("handshake-no-reply", format!("reply body: {}", e)))?;
+	Ok((h[2], body))
+}
+
+fn plain_pair() -> Result<(TcpStream, TcpStream), Fail> {
+	let lis = TcpListener::bind("127.0.0.1:0").map_err(harness("bind"))?;
+	let a = TcpStream::connect(lis.local_addr().map_err(harness("addr"))?).map_err(harness("connect"))?;
+	let (b, _) = lis.accept().map_err(harness("accept"))?;
+	Ok((a, b))
+}
+
+fn dec<T: ser::Readable>(b: &[u8], v: u32) -> Result<T, ser::Error> {
+	let mut s: &[u8] = b;
+	ser::deserialize(&mut s, ProtocolVersion(v), DeserializationMode::default())
+}
+
+pub fn check_handshake(ctx: &Ctx, c: &HsCase, counting: bool) -> PResult {
+	init_thread();
+	let local = ProtocolVersion::local().0;
+	let g1 = hash_from(1, 1);
+	let g2 = hash_from(2, 1);
+	let caps = Capabilities::default();
+	let td = Difficulty::from_num(1234);
+	let want = local.min(c.version);
+	let v = c.version;
+	match c.scenario.as_str() {
+		"accept" => {
+			let hs = Handshake::new(g1, P2PConfig::default());
+			let (mut peer, mut conn) = plain_pair()?;
+			let me = PeerAddr(peer.local_addr().map_err(harness("addr"))?);
+			let hand = Hand {
+				version: ProtocolVersion(v),
+				capabilities: caps,
+				nonce: 0x1234_5678_9abc_def0,
+				genesis: g1,
+				total_difficulty: td,
+				sender_addr: me,
+				receiver_addr: PeerAddr(conn.local_addr().map_err(harness("addr"))?),
+				user_agent: "gv-scripted".into(),
+			};
+			write_frame(&mut peer, Type::Hand as u8, &enc(&hand, v).map_err(harness("hand"))?).map_err(harness("write hand"))?;
+			let info = hs.accept(caps, td, &mut conn).map_err(|e| Fail::new("handshake-accept-failed", format!("Hand advertising version {}: {:?}", v, e)))?;
+			ensure!(info.version.0 == want, "handshake-version", "accept: remote advertises {}, local {}: negotiated {} instead of {}", v, local, info.version.0, want);
+			let (t, body) = read_frame(&mut peer)?;
+			ensure!(t == Type::Shake as u8, "handshake-frame", "accept answered with message type {}", t);
+			let shake: Shake = dec(&body, want).map_err(|e| Fail::new("handshake-frame", format!("Shake does not decode at version {}: {:?}", want, e)))?;
+			ensure!(shake.genesis == g1, "handshake-frame", "Shake carries genesis {:?}", shake.genesis);
+			// the remote applies the same rule to what the Shake advertises: both ends must agree
+			ensure!(
+				v.min(shake.version.0) == want,
+				"handshake-version-disagree",
+				"accept: the Shake advertises {}, so a remote of version {} settles on {} while the local side settled on {}",
+				shake.version.0,
+				v,
+				v.min(shake.version.0),
+				want
+			);
+		}
+		"initiate" | "genesis-initiate" => {
+			let hs = Handshake::new(g1, P2PConfig::default());
+			let (mut conn, mut peer) = plain_pair()?;
+			let shake = Shake {
+				version: ProtocolVersion(v),
+				capabilities: caps,
+				genesis: if c.scenario == "initiate" { g1 } else { g2 },
+				total_difficulty: td,
+				user_agent: "gv-scripted".into(),
+			};
+			// full duplex: the scripted answer can be on the wire before the Hand is read
+			write_frame(&mut peer, Type::Shake as u8, &enc(&shake, want).map_err(harness("shake"))?).map_err(harness("write shake"))?;
+			let me = PeerAddr(conn.local_addr().map_err(harness("addr"))?);
+			let res = hs.initiate(caps, td, me, &mut conn);
+			let (t, body) = read_frame(&mut peer)?;
+			ensure!(t == Type::Hand as u8, "handshake-frame", "initiate sent message type {}", t);
+			let hand: Hand = dec(&body, local).map_err(|e| Fail::new("handshake-frame", format!("Hand does not decode: {:?}", e)))?;
+			ensure!(hand.genesis == g1, "handshake-frame", "Hand carries genesis {:?}", hand.genesis);
+			if c.scenario == "initiate" {
+				let info = res.map_err(|e| Fail::new("handshake-initiate-failed", format!("Shake advertising version {}: {:?}", v, e)))?;
+				ensure!(info.version.0 == want, "handshake-version", "initiate: remote advertises {}, local {}: negotiated {} instead of {}", v, local, info.version.0, want);
+				ensure!(
+					v.min(hand.version.0) == want,
+					"handshake-version-disagree",
+					"initiate: the Hand advertises {}, so a remote of version {} settles on {} while the local side settled on {}",
+					hand.version.0,
+					v,
+					v.min(hand.version.0),
+					want
+				);
+			} else {
+				match res {
+					Err(grin_p2p::Error::GenesisMismatch { us, peer }) => ensure!(us == g1 && peer == g2, "handshake-genesis", "GenesisMismatch reports us={:?} peer={:?}", us, peer),
+					other => fail!("handshake-genesis-accepted", "initiate against a Shake with another genesis returned {:?}", other.map(|i| i.version)),
+				}
+			}
+		}
+		"real-real" | "genesis-accept" | "self" => {
+			let a = Handshake::new(g1, P2PConfig::default());
+			let b = Handshake::new(if c.scenario == "genesis-accept" { g2 } else { g1 }, P2PConfig::default());
+			let acceptor = if c.scenario == "self" { &a } else { &b };
+			let (mut ca, mut cb) = plain_pair()?;
+			let me = PeerAddr(ca.local_addr().map_err(harness("addr"))?);
+			let (ra, rb) = std::thread::scope(|sc| {
+				let h = sc.spawn(|| {
+					init_thread();
+					let r = acceptor.accept(caps, td, &mut cb);
+					// a refusing node drops the connection
+					if r.is_err() {
+						let _ = cb.shutdown(Shutdown::Both);
+					}
+					r
+				});
+				let ra = a.initiate(caps, td, me, &mut ca);
+				(ra, h.join())
+			});
+			let rb = rb.map_err(|_| Fail::new("panic@handshake-accept", "accept panicked"))?;
+			match c.scenario.as_str() {
+				"real-real" => {
+					let ia = ra.map_err(|e| Fail::new("handshake-initiate-failed", format!("{:?}", e)))?;
+					let ib = rb.map_err(|e| Fail::new("handshake-accept-failed", format!("{:?}", e)))?;
+					ensure!(ia.version.0 == local && ib.version.0 == local, "handshake-version", "two local-version nodes settled on {} / {}", ia.version.0, ib.version.0);
+				}
+				"genesis-accept" => {
+					match rb {
+						Err(grin_p2p::Error::GenesisMismatch { us, peer }) => ensure!(us == g2 && peer == g1, "handshake-genesis", "GenesisMismatch reports us={:?} peer={:?}", us, peer),
+						other => fail!("handshake-genesis-accepted", "accept of a Hand with another genesis returned {:?}", other.map(|i| i.version)),
+					}
+					ensure!(ra.is_err(), "handshake-genesis-accepted", "the initiating side completed a handshake with a node of another genesis");
+				}
+				_ => {
+					match rb {
+						Err(grin_p2p::Error::PeerWithSelf) => {}
+						other => fail!("handshake-self-accepted", "a node accepting its own Hand returned {:?}", other.map(|i| i.version)),
+					}
+					ensure!(ra.is_err(), "handshake-self-accepted", "the initiating side completed a handshake with itself");
+				}
+			}
+		}
+		other => fail!("harness:replay-parse", "unknown scenario {}", other),
+	}
+	if counting {
+		ctx.ev.eval();
+		ctx.ev.class(&format!("handshake:{}", c.scenario));
+		ctx.ev.sample(&format!("handshake:{}", c.scenario), || json!(c));
+	}
+	Ok(())
+}
+
+fn handshake_table() -> Vec<HsCase> {
+	let mut v = vec![];
+	for ver in [1u32, 2, 3, 999, 1000, 1001, u32::MAX, 0] {
+		v.push(HsCase { scenario: "accept".into(), version: ver });
+		v.push(HsCase { scenario: "initiate".into(), version: ver });
+	}
+	for s in ["real-real", "genesis-accept", "genesis-initiate", "self"] {
+		v.push(HsCase { scenario: s.into(), version: 1000 });
+	}
+	v
+}
+
+// ------------------------------------------------------------------ wire format cross-check
+
+struct Raw<'a>(&'a [u8]);
+
+impl<'a> Writeable for Raw<'a> {
+	fn write<W: Writer>(&self, w: &mut W) -> Result<(), ser::Error> {
+		w.write_fixed_bytes(self.0)
+	}
+}
+
+/// header ‖ body ‖ attachment as this harness composes it equals what `Msg::new` +
+/// `write_message` put on the wire (fresh Tracker: no 150 ms pacing)
+fn crosscheck_wire(ctx: &Ctx, p: &Pool) -> PResult {
+	let mut n = 0u64;
+	for t in TYPES {
+		for (i, len) in [0usize, 1, 16, 300].iter().enumerate() {
+			let body = expand(t as u64, i as u8, *len);
+			for v in VERSIONS {
+				let msg = Msg::new(t, Raw(&body), ProtocolVersion(v)).map_err(harness("Msg::new"))?;
+				let mut out: Vec<u8> = vec![];
+				grin_p2p::msg::write_message(&mut out, &msg, Arc::new(Tracker::new())).map_err(|e| Fail::new("harness:io", format!("{:?}", e)))?;
+				let mut mine = frame_header(OTHER_MAGIC, t as u8, body.len() as u64);
+				mine.extend_from_slice(&body);
+				ensure!(out == mine, "harness:wire-model", "write_message({:?}, {} bytes) differs from header‖body", t, len);
+				n += 1;
+			}
+		}
+	}
+	// typed bodies and an attachment
+	for spec in [MsgSpec::Ping(5, 6), MsgSpec::Headers(0, 3), MsgSpec::Block(40_000), MsgSpec::TxHashSetArchive(1, 2, 20_000, 3)] {
+		let w = build_msg(&spec, 1000, p).map_err(|e| Fail::new("harness:build", e))?;
+		let case = WireCase { version: 1000, msgs: vec![w.clone()], cuts: vec![], delays_us: vec![], kind: "whole".into() };
+		let (_, mine) = sent_of(&case)?;
+		let mut out: Vec<u8> = vec![];
+		let tr = Arc::new(Tracker::new());
+		match &spec {
+			MsgSpec::Ping(a, b) => {
+				let m = Msg::new(Type::Ping, Ping { total_difficulty: Difficulty::from_num(*a), height: *b }, ProtocolVersion(1000)).map_err(harness("Msg::new"))?;
+				grin_p2p::msg::write_message(&mut out, &m, tr).map_err(|e| Fail::new("harness:io", format!("{:?}", e)))?;
+			}
+			MsgSpec::Headers(..) => {
+				let m = Msg::new(Type::Headers, grin_p2p::msg::Headers { headers: p.headers[0..3].to_vec() }, ProtocolVersion(1000)).map_err(harness("Msg::new"))?;
+				grin_p2p::msg::write_message(&mut out, &m, tr).map_err(|e| Fail::new("harness:io", format!("{:?}", e)))?;
+			}
+			MsgSpec::Block(i) => {
+				let m = Msg::new(Type::Block, p.blocks[pick(*i, p.blocks.len())].clone(), ProtocolVersion(1000)).map_err(harness("Msg::new"))?;
+				grin_p2p::msg::write_message(&mut out, &m, tr).map_err(|e| Fail::new("harness:io", format!("{:?}", e)))?;
+			}
+			_ => {
+				let (len, seed) = w.att.unwrap();
+				let path = ctx.scratch_dir("att").join("a.bin");
+				std::fs::write(&path, expand(seed, 9, len as usize)).map_err(harness("att file"))?;
+				let mut m = Msg::new(Type::TxHashSetArchive, TxHashSetArchive { hash: hash_from(1, 1), height: 2, bytes: len as u64 }, ProtocolVersion(1000)).map_err(harness("Msg::new"))?;
+				m.add_attachment(std::fs::File::open(&path).map_err(harness("att open"))?);
+				grin_p2p::msg::write_message(&mut out, &m, tr).map_err(|e| Fail::new("harness:io", format!("{:?}", e)))?;
+				let _ = std::fs::remove_dir_all(path.parent().unwrap());
+			}
+		}
+		ensure!(out == mine, "harness:wire-model", "write_message output for {:?} differs from the harness's wire bytes", spec);
+		n += 1;
+	}
+	ctx.ev.class_n("wire_bytes_crosschecked_against_write_message", n);
+	Ok(())
+}
+
+// ------------------------------------------------------------------ driver
+
+/// run `f` over the items on `threads` harness threads; returns the failures (index, Fail)
+fn par_for<T: Sync>(items: &[T], threads: usize, f: impl Fn(&T) -> PResult + Sync) -> Vec<(usize, Fail)> {
+	let next = AtomicUsize::new(0);
+	let stop = AtomicBool::new(false);
+	let out: Mutex<Vec<(usize, Fail)>> = Mutex::new(vec![]);
+	std::thread::scope(|sc| {
+		for _ in 0..threads.max(1).min(items.len().max(1)) {
+			sc.spawn(|| {
+				init_thread();
+				loop {
+					let i = next.fetch_add(1, Ordering::SeqCst);
+					if i >= items.len() || stop.load(Ordering::SeqCst) {
+						break;
+					}
+					let r = match catch(|| f(&items[i])) {
+						Ok(r) => r,
+						Err(p) => Err(p),
+					};
+					if let Err(fl) = r {
+						let mut g = out.lock().unwrap();
+						g.push((i, fl));
+						if g.len() >= 8 {
+							stop.store(true, Ordering::SeqCst);
+						}
+					}
+				}
+			});
+		}
+	});
+	let mut v = out.into_inner().unwrap();
+	v.sort_by_key(|x| x.0);
+	v
+}
+
+/// report failures; harness problems become a HarnessError
+fn settle(ctx: &Ctx, part: &str, fails: Vec<(Value, Fail)>) -> HResult<()> {
+	let mut seen = std::collections::HashSet::new();
+	for (case, f) in fails {
+		if f.sig.starts_with("harness:") {
+			return Err(HarnessError(format!("{} [{}]: {}", part, f.sig, f.msg)));
+		}
+		if seen.insert(f.sig.clone()) {
+			ctx.report(part, &f.sig, case, &f.msg);
+		}
+	}
+	Ok(())
+}
+
+fn first_failing_plan(ctx: &Ctx, spec: &FragSpec, p: &Pool) -> Option<(WireCase, Fail)> {
+	for plan in &spec.plans {
+		let wc = wire_case(spec, plan, p, None);
+		let r = match catch(|| check_frag(ctx, &wc, false)) {
+			Ok(r) => r,
+			Err(pf) => Err(pf),
+		};
+		if let Err(f) = r {
+			return Some((wc, f));
+		}
+	}
+	None
+}
+
+fn short_seq_strategy() -> impl Strategy<Value = (u8, Vec<MsgSpec>)> {
+	let m = prop_oneof![
+		10 => small_msg(),
+		1 => any::<u16>().prop_map(MsgSpec::Header),
+		1 => any::<u16>().prop_map(|s| MsgSpec::Headers(s, 1)),
+	];
+	(0u8..4, prop::collection::vec(m, 2..=7))
+}
+
+const RULE: &str = "part frag: proptest generates (protocol version in {1,2,3,1000}, 1-12 messages, 4 fragmentation plans); headers/blocks/compact blocks are real mined objects of the prepared 89-block AutomatedTesting chain, transactions come from the asset library, segment responses are cut from small in-memory PMMRs by Segment::from_pmmr, the rest from typed generators, unknown type bytes 29..255 carry arbitrary bodies, TxHashSetArchive is followed by an attachment of 0..200000 bytes; every (sequence, plan) is one loopback TCP connection: the writer thread writes header‖body‖attachment split at the plan's cut points (whole / one cut / 2-40 random cuts / 1-byte dribble / all item boundaries -1,0,+1 / one cut inside every header and every body) with 0-5 ms pauses, the reader drives Codec::read like conn.rs (expect_attachment after TxHashSetArchive) and every received message is re-encoded and compared with the sent bytes (header batches concatenated, `remaining` and attachment `left` checked, sum of bytes_read = bytes sent); sweeps: every single cut point of short sequences (<= 600 bytes) plus a strided sweep over a long sequence (33 headers + attachment); zero-length header lists are excluded from generated sequences by construction and probed separately (Ping, Headers[], Ping). part limits: for every type byte 0..28 and three unknown ones, on AutomatedTesting and Mainnet limits: wrong magic (other network / one bit flipped) and announced lengths nominal, nominal+1, 4x, 4x+1, 4x+4097, 2^32, 2^63, 2^64-1; header lists whose count field is n+1 / n-1 / 0 for n real headers; the bytes taken from the socket are measured by draining what the codec left; refused frames are re-read in a single-threaded child under the counting allocator. part handshake: real accept/initiate against a scripted peer advertising versions 0,1,2,3,999,1000,1001,2^32-1, two real instances (same / different genesis), one instance dialling itself. evaluations = connections of part frag + limit frames + allocator frames + handshakes. non-trivial = frag connection with >=1 cut strictly inside a message header and >=1 strictly inside a body/attachment whose sequence contains a header list of more than 32 items or a non-empty attachment; distinct by (version, set of message types, number of batches, number of attachment chunks, fragmentation kind)";
+
+pub fn run(ctx: &Ctx) -> HResult<()> {
+	init_global();
+	let ev = &ctx.ev;
+	ev.rule(RULE);
+	ev.assume("loopback TCP delivers the written bytes in order; the harness's frame layout (2 magic bytes, type byte, u64 length) and the per-type limits are transcribed from p2p/src/msg.rs and cross-checked against MsgHeader / write_message on every run; the writers (Writeable impls) are the reference for what a peer sends");
+	let t0 = std::time::Instant::now();
+	let p = pool(ctx).map_err(HarnessError)?;
+	ev.extra("pool_build_s", json!(t0.elapsed().as_secs_f64()));
+	ev.extra("zero_length_header_lists_in_generated_sequences", json!(0));
+	let threads = 8usize;
+
+	if let Err(f) = crosscheck_wire(ctx, p) {
+		return Err(HarnessError(format!("[{}] {}", f.sig, f.msg)));
+	}
+
+	// ---- zero-item header list (candidate defect; kept under its own signature)
+	{
+		let v = 1000;
+		let ping = build_msg(&MsgSpec::Ping(3, 4), v, p).map_err(HarnessError)?;
+		let empty = wire(Type::Headers, &grin_p2p::msg::Headers { headers: vec![] }, v).map_err(HarnessError)?;
+		let wc = WireCase { version: v, msgs: vec![ping.clone(), empty, ping], cuts: vec![], delays_us: vec![], kind: "whole".into() };
+		ev.class("zero_headers_probe");
+		if let Err(f) = check_frag(ctx, &wc, true) {
+			settle(ctx, "frag", vec![(serde_json::to_value(&wc).unwrap(), f)])?;
+		}
+	}
+
+	// ---- generated sequences x fragmentation plans
+	let plans_per_seq = 4usize;
+	let seqs = ctx.n(300, 6000);
+	let fl = pbt_par(
+		ctx,
+		"frag",
+		seqs,
+		threads,
+		|| frag_strategy(plans_per_seq),
+		init_thread,
+		|spec: &FragSpec, counting| {
+			for plan in &spec.plans {
+				let wc = wire_case(spec, plan, p, if counting { Some(ev) } else { None });
+				check_frag(ctx, &wc, counting)?;
+			}
+			if counting {
+				ev.class("sequences");
+			}
+			Ok(())
+		},
+	);
+	if let Some(fl) = fl {
+		let (case, f) = match first_failing_plan(ctx, &fl.value, p) {
+			Some((wc, f)) => (serde_json::to_value(&wc).unwrap(), f),
+			None => (json!({"spec": format!("{:?}", fl.value)}), fl.fail),
+		};
+		settle(ctx, "frag", vec![(case, f)])?;
+	}
+
+	// ---- full single-cut sweeps of short sequences, plus dribble
+	let n_short = ctx.n(20, 300);
+	let mut sweep: Vec<WireCase> = vec![];
+	for k in 0..n_short {
+		let (vi, specs) = sample_one(ctx.derive_seed("sweep", k), &short_seq_strategy());
+		let v = VERSIONS[vi as usize % 4];
+		let mut msgs: Vec<WireMsg> = vec![];
+		for s in &specs {
+			if let Ok(w) = build_msg(s, v, p) {
+				let mut cand = msgs.clone();
+				cand.push(w);
+				if layout(&cand).1 <= 600 {
+					msgs = cand;
+				}
+			}
+		}
+		if msgs.is_empty() {
+			continue;
+		}
+		let total = layout(&msgs).1;
+		ev.class("sweep_sequences_short");
+		for c in 1..total {
+			sweep.push(WireCase { version: v, msgs: msgs.clone(), cuts: vec![c], delays_us: vec![200], kind: "sweep-single".into() });
+		}
+		sweep.push(WireCase { version: v, msgs: msgs.clone(), cuts: (1..total).collect(), delays_us: vec![0, 0, 0, 50], kind: "dribble".into() });
+	}
+	// strided sweep over a long sequence: header batching boundary and attachment
+	{
+		let n_long = ctx.n(2, 8);
+		let stride = if ctx.quick() { 7 } else { 1 };
+		for k in 0..n_long {
+			let v = VERSIONS[(k % 4) as usize];
+			let specs = [MsgSpec::Ping(k, 2), MsgSpec::Headers((k * 9000) as u16, 33), MsgSpec::TxHashSetArchive(k, 5, 700, k), MsgSpec::Unknown(200, 33, k), MsgSpec::Pong(1, k)];
+			let msgs: Vec<WireMsg> = specs.iter().filter_map(|s| build_msg(s, v, p).ok()).collect();
+			let total = layout(&msgs).1;
+			ev.class("sweep_sequences_long");
+			let mut c = 1 + (k as usize % stride);
+			while c < total {
+				sweep.push(WireCase { version: v, msgs: msgs.clone(), cuts: vec![c], delays_us: vec![200], kind: "sweep-single".into() });
+				c += stride;
+			}
+		}
+	}
+	let fails = par_for(&sweep, threads, |wc| check_frag(ctx, wc, true));
+	settle(ctx, "frag", fails.into_iter().map(|(i, f)| (serde_json::to_value(&sweep[i]).unwrap(), f)).collect())?;
+	drop(sweep);
+
+	// ---- refused frames
+	let mut table = limit_table(false);
+	table.extend(limit_table(true));
+	let fails = par_for(&table, threads, |c| check_limit(ctx, c, true));
+	settle(ctx, "limits", fails.into_iter().map(|(i, f)| (serde_json::to_value(&table[i]).unwrap(), f)).collect())?;
+	{
+		let refused: Vec<LimitCase> = table
+			.iter()
+			.filter(|c| {
+				set_chain(c.mainnet);
+				let r = c.variant.starts_with("magic") || (c.variant == "len" && c.len > 4 * nominal_max(c.t));
+				set_chain(false);
+				r
+			})
+			.cloned()
+			.collect();
+		let res = alloc_batch(ctx, &refused).map_err(|f| HarnessError(format!("[{}] {}", f.sig, f.msg)))?;
+		let mut fails = vec![];
+		let mut dead = false;
+		for (c, v) in refused.iter().zip(&res) {
+			if v.is_null() && dead {
+				// the child died earlier: these were never run
+				ev.class("alloc_cases_not_run_after_child_death");
+				continue;
+			}
+			if let Err(f) = judge_alloc(ctx, c, v, true) {
+				dead |= v.is_null();
+				fails.push((serde_json::to_value(c).unwrap(), f));
+			}
+		}
+		settle(ctx, "limits-alloc", fails)?;
+	}
+
+	// ---- handshake
+	let hs = handshake_table();
+	let fails = par_for(&hs, 4, |c| check_handshake(ctx, c, true));
+	settle(ctx, "handshake", fails.into_iter().map(|(i, f)| (serde_json::to_value(&hs[i]).unwrap(), f)).collect())?;
+
+	ev.extra("code_limit_rule", json!("MsgHeaderWrapper::read refuses msg_len > 4 * max_msg_size(type) (unknown types: 4 * max_block_size): the enforced boundary is 4x the nominal per-type maximum"));
+	for cl in ["nontrivial_sequences", "msg_type:Headers", "msg_type:TxHashSetArchive", "msg_type:Unknown", "msg_type:Block", "frag_kind:dribble"] {
+		if ev.class_count(cl) == 0 {
+			eprintln!("warning: class {} is empty in this run", cl);
+		}
+	}
+	Ok(())
+}
+
+/// not used (the work is I/O bound: threads, not processes)
 pub fn part(_ctx: &Ctx, _part: &str, _seed: u64, _cases: u32) -> Option<(Value, Fail)> {
 	None
 }
 
-/// `gv child x C19 <args...>`
-pub fn child(_args: &[String]) -> i32 {
-	2
+pub fn replay(ctx: &Ctx, part: &str, case: &Value) -> PResult {
+	init_global();
+	let parse = |e: serde_json::Error| Fail::new("harness:replay-parse", e.to_string());
+	match part {
+		"frag" => {
+			pool(ctx).map_err(|e| Fail::new("harness:pool", e))?;
+			let c: WireCase = serde_json::from_value(case.clone()).map_err(parse)?;
+			check_frag(ctx, &c, false)
+		}
+		"limits" => {
+			let c: LimitCase = serde_json::from_value(case.clone()).map_err(parse)?;
+			check_limit(ctx, &c, false)
+		}
+		"limits-alloc" => {
+			let c: LimitCase = serde_json::from_value(case.clone()).map_err(parse)?;
+			check_limit_alloc(ctx, &c, false)
+		}
+		"handshake" => {
+			let c: HsCase = serde_json::from_value(case.clone()).map_err(parse)?;
+			check_handshake(ctx, &c, false)
+		}
+		_ => Ok(()),
+	}
 }
